@@ -124,10 +124,14 @@ def frontier (P : Prims) : Pat → Val → Option (List Entry)
       appendO (some lenE) (frontierEntries P id entries keys vals)
     | _ => none
 
-/-- The first element's pattern against `v` itself. -/
+/-- The first element's pattern against `v` itself (after the element's own operations, if any). -/
 def frontierHead (P : Prims) : Items → Val → Option (List Entry)
   | .nil, _ => none
-  | .cons _ _ p _, v => frontier P p v
+  | .cons none _ p _, v => frontier P p v
+  | .cons (some ops) _ p _, v =>
+    match elemSub P v ops with
+    | some sub => frontier P p sub
+    | none => none
 
 /-- Fields of a struct pattern against the struct value `v`. -/
 def frontierFields (P : Prims) : Items → Val → Option (List Entry)
